@@ -185,11 +185,12 @@ def c06_rowan_local_assert_only_at_expression_start(op, impl, model, args):
         and "(Plus " not in op["ir"]
 
 
-def c06_rowan_import_non_literal_panics(op, impl, model, args):
-    """rowan parser asserts that `import` is followed by a string token (panics otherwise) while
-    the evaluator's parsers accept any expression there"""
-    return _only_rowan_deviates(op) and _acc(op) and isinstance(op.get("rowan"), str) \
-        and "Text::can_cast" in op["rowan"] and "(import " in op["ir"] \
+def c06_rowan_import_requires_string_literal(op, impl, model, args):
+    """rowan parser requires a string token after `import` (it used to panic, since the C20 repair
+    it reports "missing string literal") while the evaluator's parsers accept any expression there"""
+    return _only_rowan_deviates(op) and _acc(op) \
+        and (op.get("rowan") is False or (isinstance(op.get("rowan"), str) and "Text::can_cast" in op["rowan"])) \
+        and "(import " in op["ir"] \
         and re.search(r"\bimport(?:str|bin)?" + _TRIVIA + r"[\"'@|]", op.get("src", "")) is None
 
 
